@@ -109,6 +109,11 @@ def build_pairs(structure, pairs, mode):
             if k in (0, 1) or n.label is None or n.auth is None:
                 return Residue(n.label, n.auth)
             return Residue(None, n.auth) if k in (2, 3) else Residue(n.label, None)
+        if mode == "foreign-label" and n.auth is not None:
+            # a list made for another form of the same entry (annotated on the mmCIF file, applied to the PDB file): the
+            # author identifiers are this structure's, the label identifiers are not
+            from rnapolis.common import ResidueLabel
+            return Residue(ResidueLabel("zz", 7000 + (r if isinstance(r, int) else 0), n.auth.name), n.auth)
         return Residue(n.label if mode == "full" else None, n.auth)
     res.count = 0
     return [BasePair(res(a), res(b), lws[lw], None if sa is None else sas[sa]) for a, b, lw, sa in pairs]
